@@ -1143,6 +1143,7 @@ impl Model {
                 self.pop_handle(t, op, None)?;
                 self.pop_handle(t, op, None)?;
             }
+            Op::UserPanic { .. } => {}
             Op::EventNew { ev, n } => {
                 self.empty_slot(*ev)?;
                 if *n > 0 {
